@@ -92,6 +92,15 @@ Next ==
   /\ LET e == Trace[l] IN
      IF e.ev = "Reset" THEN st' = InitSt /\ dead' = FALSE /\ UNCHANGED nrej
      ELSE IF dead THEN UNCHANGED <<st, dead, nrej>>
+     ELSE IF e.ev = "Crash" THEN
+          \* C08: the emulator was stopped (cleanly or by a kill, possibly in the middle of request e.inflight) and
+          \* started again on the same directory: it must come up and serve exactly the acknowledged state, the
+          \* in-flight request being wholly present or wholly absent
+          LET cands == {st} \cup (IF e.hasInflight THEN {o.st : o \in Step(st, e.inflight)} ELSE {})
+              good  == {s \in cands : e.started /\ ObsOK(e.obs, s)}
+          IN IF good # {} THEN st' = (CHOOSE s \in good : TRUE) /\ UNCHANGED <<dead, nrej>>
+             ELSE /\ Reject(e, IF e.started THEN "recovered state" ELSE "restart failed")
+                  /\ dead' = TRUE /\ nrej' = nrej + 1 /\ UNCHANGED st
      ELSE LET outs == Step(st, e)
               good == {o \in outs : Explains(e, o)}
           IN IF good # {} THEN st' = (CHOOSE o \in good : TRUE).st /\ UNCHANGED <<dead, nrej>>
